@@ -51,10 +51,10 @@ func Named(p int, n string) T { return T{K: "named", N: n, NC: cs(n), P: p, E: [
 func NamedG(p int, n string, args ...T) T {
 	return T{K: "named", N: n, NC: cs(n), P: p, E: args, R: []T{}}
 }
-func Ptr(t T) T        { return T{K: "ptr", NC: []string{}, P: -2, E: []T{t}, R: []T{}} }
-func Slice(t T) T      { return T{K: "slice", NC: []string{}, P: -2, E: []T{t}, R: []T{}} }
-func Array(t T) T      { return T{K: "array", NC: []string{}, P: -2, E: []T{t}, R: []T{}} }
-func Map(k, v T) T     { return T{K: "map", NC: []string{}, P: -2, E: []T{k, v}, R: []T{}} }
+func Ptr(t T) T            { return T{K: "ptr", NC: []string{}, P: -2, E: []T{t}, R: []T{}} }
+func Slice(t T) T          { return T{K: "slice", NC: []string{}, P: -2, E: []T{t}, R: []T{}} }
+func Array(t T) T          { return T{K: "array", NC: []string{}, P: -2, E: []T{t}, R: []T{}} }
+func Map(k, v T) T         { return T{K: "map", NC: []string{}, P: -2, E: []T{k, v}, R: []T{}} }
 func Chan(d string, t T) T { return T{K: "chan", N: d, NC: []string{}, P: -2, E: []T{t}, R: []T{}} }
 func Func(ps []T, rs []T) T {
 	if ps == nil {
@@ -65,8 +65,8 @@ func Func(ps []T, rs []T) T {
 	}
 	return T{K: "func", NC: []string{}, P: -2, E: ps, R: rs}
 }
-func Struct(f T) T    { return T{K: "struct", NC: []string{}, P: -2, E: []T{f}, R: []T{}} }
-func IfaceT(p T) T    { return T{K: "iface", NC: []string{}, P: -2, E: []T{p}, R: []T{}} }
+func Struct(f T) T      { return T{K: "struct", NC: []string{}, P: -2, E: []T{f}, R: []T{}} }
+func IfaceT(p T) T      { return T{K: "iface", NC: []string{}, P: -2, E: []T{p}, R: []T{}} }
 func AliasT(n string) T { return T{K: "alias", N: n, NC: cs(n), P: -2, E: []T{}, R: []T{}} }
 
 // AliasIn: a type declared with `type N[...] = ...` in package p (go/types: *types.Alias)
@@ -76,9 +76,12 @@ func AliasIn(p int, n string, args ...T) T {
 	}
 	return T{K: "alias", N: n, NC: cs(n), P: p, E: args, R: []T{}}
 }
+
 // StructEmbed / IfaceEmbed: literals that embed a named type (whose own methods or
 // fields may mention further packages the literal's text never names)
-func StructEmbed(f T) T { return T{K: "struct", N: "embed", NC: []string{}, P: -2, E: []T{f}, R: []T{}} }
+func StructEmbed(f T) T {
+	return T{K: "struct", N: "embed", NC: []string{}, P: -2, E: []T{f}, R: []T{}}
+}
 func IfaceEmbed(f T) T  { return T{K: "iface", N: "embed", NC: []string{}, P: -2, E: []T{f}, R: []T{}} }
 func TParam(n string) T { return T{K: "tparam", N: n, NC: cs(n), P: -2, E: []T{}, R: []T{}} }
 
@@ -111,12 +114,12 @@ type Iface struct {
 
 // SrcPkg is a source package: directory, path, name and interfaces.
 type SrcPkg struct {
-	Dir    string  `json:"dir"`
-	Path   string  `json:"path"`
-	Name   string  `json:"name"`
-	Pkgs   []Pkg   `json:"pkgs"` // dependency packages, by index
-	Ifaces []Iface `json:"ifaces"`
-	Extra  string  `json:"-"` // extra declarations (local types)
+	Dir    string            `json:"dir"`
+	Path   string            `json:"path"`
+	Name   string            `json:"name"`
+	Pkgs   []Pkg             `json:"pkgs"` // dependency packages, by index
+	Ifaces []Iface           `json:"ifaces"`
+	Extra  string            `json:"-"` // extra declarations (local types)
 	Raw    map[string]string `json:"-"` // hand-written source files (file name -> content) instead of Ifaces
 }
 
